@@ -75,8 +75,9 @@ def run(ctx):
     ctx.cov["exhaustive"] = True
     allc = sc.with_flavors(cases, flavors)
     from .. import sysfam
-    traces = sysfam.run_cases(ctx, allc)
-    sysfam.judge(ctx, allc, traces, "resolver family", clauses=CLAUSES, extra_sig=xsig)
+    for k in range(0, len(allc), sc.CHUNK):          # chunked: see syscheck.run_family
+        sub = allc[k:k + sc.CHUNK]
+        sysfam.judge(ctx, sub, sysfam.run_cases(ctx, sub), "resolver family", clauses=CLAUSES, extra_sig=xsig)
     ctx.count(evaluations=len(allc), nontrivial=len([c for c in allc if c["kase"]["cidL"] != c["kase"]["cidR"]]))
     ctx.sample({k: allc[7][k] for k in ("flavor", "tokens", "resolver", "kase")})
 
